@@ -171,6 +171,7 @@ def run(ctx):
     exact(ctx, fb)
     split(ctx, fb)
     carry_order(ctx, fb)
+    chunks(ctx, fb)
 
 
 
@@ -217,3 +218,73 @@ def carry_order(ctx, fb):
                 ctx.inst(R, 'loop:' + f.path.split('::')[-1], rev is True, 'dimensions are walked innermost-first (reversed iterator)' if rev else
                          'a loop over the dimension positions is not (entirely) reversed: carries / place values would propagate towards the wrong dimension', c.loc())
     ctx.floor(R, 'dimension loops in OffsetsBase', n, 4)
+
+
+
+def chunks(ctx, fb):
+    """AxisChunks / AxisChunksMut: (keep) the iterator keeps a remainder exactly when `remainder.size(axis) > 0` - the same
+    quantity size_hint divides - at every place that decides it (new, next, next_back, split_at), so len() stays exact;
+    (back-tail) the chunk taken from the back has the length of the *last forward chunk* (size % chunk_size, or a full
+    chunk); (split-clamped) split_at clamps the split position to the axis size"""
+    R = 'C07.chunks'
+    n = 0
+    for f in fb.fns(crate='rten_tensor'):
+        if not f.has_mir() or not re.search(r'AxisChunks(Mut)?(<|::)', f.path):
+            continue
+        m = re.search(r'::(new|next|next_back|split_at)$', f.path)
+        if not m:
+            continue
+        kind = m.group(1)
+        which = 'AxisChunksMut' if 'AxisChunksMut' in f.path else 'AxisChunks'
+        n += 1
+        # keep-predicate: Some(view) for the remainder is built only under `size(..) > 0`
+        somes = []
+        for i, b in enumerate(f.bbs):
+            if b.get('c') or i not in f.live():
+                continue
+            for st in b['s']:
+                if st[0] == '=' and st[2][0] == 'agg' and st[2][3] == 'Some' and 'TensorBase' in f.local_ty(st[1][0]):
+                    somes.append((i, st))
+        ok = True
+        why = ''
+        if kind == 'split_at':
+            # Some(half).filter(|h| h.size(axis) > 0): every Some flows into an Option::filter whose closure tests size > 0
+            fl = [c for c in f.calls() if re.search(r'Option::<T>::filter$', c.callee or '')]
+            cl_ok = 0
+            for q in fb.closures_of(f.path):
+                cf = fb.fn(q)
+                if cf is None or not cf.has_mir():
+                    continue
+                if any(re.search(r'::size$', c.callee or '') for c in cf.calls()) and not any(re.search(r'::is_empty$', c.callee or '') for c in cf.calls()):
+                    cl_ok += 1
+            ok = len(fl) >= 2 and cl_ok >= 2 and len(somes) >= 2
+            why = 'both halves are kept only if their size along the axis is > 0' if ok else 'a half produced by split_at is kept without a `size(axis) > 0` test (an exhausted half would still yield an empty chunk / len() would be inexact)'
+        else:
+            nrem = 0
+            for (bb, st) in somes:
+                # the item returned (`Some(current)`) in next/next_back is not a remainder decision: it is assigned to _0
+                if st[1] == [0]:
+                    continue
+                nrem += 1
+                g_ok = False
+                for (op, a, b_, g) in normalized_cmps(f, bb):
+                    if op in ('Gt', 'Ne') and op_int(b_) == 0 and any(o[0] == 'call' and re.search(r'::size$', o[1] or '') for o in f.origins(a)):
+                        g_ok = True
+                if not g_ok:
+                    ok = False
+            if nrem == 0:
+                ok = False
+            why = 'the remainder is kept only under `size(axis) > 0`' if ok else 'no `Some(remainder)` found (anchor lost)' if nrem == 0 else 'the remainder is kept under a test other than `size(axis) > 0` (size_hint counts chunks from size(axis), so len() would disagree with what next() yields)'
+        ctx.inst(R, 'keep:%s::%s' % (which, kind), ok, why, f.loc())
+        if kind == 'next_back':
+            # chunk length from the back depends on size % chunk_size
+            sp = [c for c in f.calls() if re.search(r'::split_at(_mut)?$', c.callee or '')]
+            ok2 = bool(sp) and all(any(o[0] == 'binop' and o[1].startswith('Rem') for o in f.origins(c.args[2])) for c in sp)
+            ctx.inst(R, 'back-tail:%s' % which, ok2, 'the chunk taken from the back has length size % chunk_size (or a full chunk)' if ok2 else
+                     'next_back does not take the (possibly shorter) last forward chunk: chunks from the back differ from the forward chunks reversed', f.loc())
+        if kind == 'split_at':
+            sp = [c for c in f.calls() if re.search(r'TensorBase::<.*>::split_at(_mut)?$|::split_at(_mut)?$', c.callee or '') and 'SplitIterator' not in (c.callee or '')]
+            ok3 = bool(sp) and all(any(o[0] == 'call' and re.search(r'::min$', o[1] or '') for o in f.origins(c.args[2])) for c in sp)
+            ctx.inst(R, 'split-clamped:%s' % which, ok3, 'the split position chunk_size * index is clamped to the axis size' if ok3 else
+                     'split_at does not clamp chunk_size * index to the axis size: splitting at len() panics when the last chunk is short', f.loc())
+    ctx.floor(R, 'AxisChunks / AxisChunksMut methods deciding the remainder', n, 8)
